@@ -10,15 +10,16 @@ import (
 
 // Symbolic operations for the exhaustive short histories; they are resolved against the
 // objects observed at that moment.
-//   La Lb Lc   load {0,1,2} / {3,1} into main, {4,0} into branch 1
-//   D1 Da Dc   delete the first / all live objects of main, the first of branch 1
-//   W Wv       delete-where on main: keys >= 2 / non-key field v in {1,3}
-//   Ld         load {3,0} into main (overlaps La: both span keys 1..3)
-//   C Cc       compact all live objects of main / branch 1
-//   V          vacuum main's tip
-//   B          create branch 1 at main's tip
-//   M Mr       merge branch 1 into main / main into branch 1
-//   R Rf       revert the latest / the first commit on main
+//
+//	La Lb Lc   load {0,1,2} / {3,1} into main, {4,0} into branch 1
+//	D1 Da Dc   delete the first / all live objects of main, the first of branch 1
+//	W Wv       delete-where on main: keys >= 2 / non-key field v in {1,3}
+//	Ld         load {3,0} into main (overlaps La: both span keys 1..3)
+//	C Cc       compact all live objects of main / branch 1
+//	V          vacuum main's tip
+//	B          create branch 1 at main's tip
+//	M Mr       merge branch 1 into main / main into branch 1
+//	R Rf       revert the latest / the first commit on main
 func resolveSym(sym string, v *View) (Op, bool) {
 	live0, live1 := v.Live[0], v.Live[1]
 	has1 := false
